@@ -80,6 +80,20 @@ CHECKS.update({
 ENGINES[0]["serves_properties"] = sorted(CHECKS.keys())
 ENGINES[1]["serves_properties"] = ["C09", "C14", "C15", "C17", "C18", "C19", "C20"]
 
+CHECKS.update({
+    "C04": _c("mirfacts+grammardump", "whole-program panic-site inventory over the resolved call graph with class-based third-party summaries and a reviewed table; abstract interpretation of the AST builder's MIR over the grammar's child-sequence automata; SCC analysis of the call graph; acyclicity of grammar and AST type graph",
+              "Decides panic freedom up to a reviewed inventory: every potentially panicking call/assertion reachable from the public API (incl. the Python methods) is discharged by a machine-checked guard, a reviewed row (count + argument) or is a recorded known finding with its failing input; all 125 builder sites are discharged exhaustively against the grammar (this found `10:00-12:00/30` and `/24:00`, fixed); recursion is bounded (acyclic grammar, 11 reviewed call-graph cycles with measures, acyclic AST types). Does not decide debug-only overflow traps, termination of raw loops, pest backtracking cost.",
+              "DESIGN.md section 3, C04", _TB + "Reviewed rows are human arguments; std/chrono functions outside the may-panic classes are assumed total; sunrise, tzf-rs, country-boundaries, flate2, chrono-tz, pest, log, pyo3 are opaque-trusted. 8 known findings (unchecked chrono arithmetic on AST offsets, instants at chrono's limits)."),
+    "C05": _c("mirfacts+grammardump", "abstract interpretation (collecting semantics with per-symbol forking) of the builder's MIR over DFAs of the grammar's child sequences; exhaustive enumeration of finite token languages with a PEG matcher on the grammar; three-way token tables; bounded PEG-vs-backtracking shadowing check",
+              "Decides: grammar and builder agree on structure (every producible child sequence is handled by an explicit arm, nothing information-carrying is left unconsumed at a value return); numeric token languages are exactly the documented ranges and fit their target types, the listed out-of-range inputs are rejected and 20 documented forms accepted by the grammar; enumerated tokens map to the variant whose printed text the same grammar rule accepts; no alternative is shadowed by ordered choice (bounded); the abbreviated-range month wrap compares with the frame start. Does not decide which field a number lands in.",
+              "DESIGN.md section 3, C05", _TB + "Trusted: pest_meta's grammar front end (same version as pest_derive), the PEG matcher of this repository. kids(R) ignores PEG ordering (superset): can only add obligations."),
+    "C10": _c("mirfacts", "bijection check over enum/ALL/iso_code/FromStr tables and data files; decoding of the artefacts embedded in the compiled initialisers (constants in MIR) with the wire format and bit layout read off the code; expression-shape rules on the decoder and the build script; shared C15.R1/R2",
+              "Decides: the country tables are one bijection with the data files; the embedded public and school databases (the byte constants the compiler baked into the lazy initialisers for the current tree) decode to exactly the dates of the data files, region by region with nothing left over (113517 + 988 dates, exhaustive); each decoded calendar is keyed by parsing its own region code; codec, public/school pairing and build-script table are consistent; reader and writer agree (C15.R1/R2). Does not decide flate2's inflate nor CompactCalendar::contains for every date beyond the structural rules of C15.",
+              "DESIGN.md section 3, C10", _TB + "The artefact is produced by the build script during the analysing `cargo check`; the check decodes it with zlib and its own reader of the format."),
+})
+ENGINES[0]["serves_properties"] = sorted(CHECKS.keys())
+ENGINES.append({"name": "grammardump", "path": "engines/grammardump", "serves_properties": ["C04", "C05"], "kind_free_text": "pest_meta front end dumping grammar.pest as JSON; consumed by rules/peg.py (child-sequence DFAs, PEG matcher)"})
+
 NOT_APPLICABLE = {
     "C16": "Every sentence compares durations measured at run time from two reference points of a stateful iterator; no clause whose truth is visible in the shape of the code could be separated without either inter-call path-sensitive taint over iterator state or freezing a source fragment (DESIGN.md section 4).",
 }
